@@ -125,35 +125,20 @@ def run(ctx, rep):
     for n in g.live:
         if n.kind == "stmt" and isinstance(n.ast, ast.Return) and isinstance(n.ast.value, ast.Tuple) and n.ast.value.elts:
             produced.add(ctx.try_fold(n.ast.value.elts[0]))
-    fu = ctx.func(K.CONN + "._unbox")
-    gu = ctx.cfg(fu)
+    um = K.unbox_model(ctx)
+    fu, gu = um.f, um.g
     rep.analysed(fu, gu)
-    consumed = set()
-    for n in gu.live:
-        if n.kind == "test" and isinstance(n.ast, ast.Compare) and isinstance(n.ast.ops[0], ast.Eq):
-            consumed.add(ctx.try_fold(n.ast.comparators[0]))
+    lv, vv = um.names[0], um.names[1]
+    consumed = {um.values[k] for k in consts if um.returns(k)}
     want = set(consts.values())
     ok = produced == want and consumed == want
     rep.ob("R03.2", "_box/_unbox: the four labels are produced and consumed", ok,
            "labels %s on both sides" % sorted(want) if ok else "_box produces %s, _unbox handles %s, published %s"
            % (sorted(x for x in produced if x is not None), sorted(x for x in consumed if x is not None), sorted(want)),
            fu.loc, kind="table")
-    # _unbox: VALUE returns the value unchanged; TUPLE recurses
     up = A.params(fu.node)
     dom = Q.dominators(gu)
-    pk = None
-    for n in A.walk(fu.node):
-        if isinstance(n, ast.Assign) and isinstance(n.targets[0], ast.Tuple) and A.src(n.value) == up[1]:
-            pk = [e.id for e in n.targets[0].elts]
-    if not pk or len(pk) != 2:
-        raise AnalysisError("_unbox no longer destructures (label, value)")
-    lv, vv = pk
-    by_label = {}
-    for n in gu.live:
-        if n.kind == "stmt" and isinstance(n.ast, ast.Return):
-            for t, pol in Q.dominating_conditions(gu, n, dom):
-                if pol and isinstance(t.ast, ast.Compare) and A.src(t.ast.left) == lv:
-                    by_label.setdefault(ctx.try_fold(t.ast.comparators[0]), []).append(n)
+    by_label = {um.values[k]: um.returns(k) for k in consts}
     r = by_label.get(consts["LABEL_VALUE"], [])
     okv = len(r) == 1 and A.src(r[0].ast.value) == vv
     rep.ob("R03.2", "_unbox: a by-value package is returned as is", okv, "return value" if okv else
@@ -192,7 +177,7 @@ def run(ctx, rep):
     # ------------------------------------------------------------------ R03.4
     rr = by_label.get(consts["LABEL_REMOTE_REF"], [])
     rep.floor("R03.4", "_unbox remote-reference returns", len(rr), 1)
-    rdu = Q.ReachingDefs(gu)
+    rdu = Q.ReachingDefs(gu, edge_ok=um.edge_ok("LABEL_REMOTE_REF"))
     for n in rr:
         v = n.ast.value
         if not isinstance(v, ast.Name):
@@ -211,8 +196,9 @@ def run(ctx, rep):
                 keys.add(A.src(val.slice))
                 # the load is guarded by a membership test on the same key
                 conds = Q.dominating_conditions(gu, d, dom)
-                guarded = any(pol and isinstance(t.ast, ast.Compare) and isinstance(t.ast.ops[0], ast.In) and
-                              K.self_attr(t.ast.comparators[0], "_proxy_cache") and A.src(t.ast.left) == A.src(val.slice)
+                guarded = any(isinstance(t.ast, ast.Compare) and K.self_attr(t.ast.comparators[0], "_proxy_cache") and
+                              A.src(t.ast.left) == A.src(val.slice) and (
+                                  (pol and isinstance(t.ast.ops[0], ast.In)) or (not pol and isinstance(t.ast.ops[0], ast.NotIn)))
                               for t, pol in conds)
                 if not guarded:
                     okall = False
@@ -239,7 +225,9 @@ def run(ctx, rep):
                     for t in s.ast.targets:
                         if isinstance(t, ast.Subscript):
                             keys.add(A.src(t.slice))
-                p = Q.find_path(d, [n], avoid=stores, labels=("next", "true", "false"))
+                ok_e = um.edge_ok("LABEL_REMOTE_REF")
+                sid = {x.id for x in stores}
+                p = Q.find_path_ef(d, lambda x: x is n, lambda a, b, l: ok_e(a, b, l) and a.id not in sid)
                 if p is not None or not stores:
                     okall = False
                     why.append("a freshly created proxy is returned without being stored in the proxy cache: the same remote "
